@@ -147,15 +147,19 @@ func fmtGen(r *rand.Rand, lane string) *fmtCase {
 			add("##!+" + core.Pick(r, " ", "", "  ") + fl + core.Pick(r, "", " ", "\t"))
 		}
 		if core.Chance(r, 1, 3) {
-			add("##!^" + core.Pick(r, " ", "", "   ") + core.Pick(r, `\b`, "^", "[a-c]", "(?:x|y)", "{{def1}}") + core.Pick(r, "", "  "))
+			add("##!^" + core.Pick(r, " ", "", "   ") + core.Pick(r, `\b`, "^", "[a-c]", "(?:x|y)", "{{def1}}", "GET  /", "a \t b", `x\s  y`) + core.Pick(r, "", "  "))
 		}
 		if core.Chance(r, 1, 3) {
-			add("##!$" + core.Pick(r, " ", "", "   ") + core.Pick(r, `\b`, "$", `\s*`, "[^a-z]") + core.Pick(r, "", " "))
+			add("##!$" + core.Pick(r, " ", "", "   ") + core.Pick(r, `\b`, "$", `\s*`, "[^a-z]", `\.php\t\?`, "two  blanks", "[ ]  z") + core.Pick(r, "", " "))
 		}
 		depth := 0
 		n := r.Intn(16)
 		for i := 0; i < n; i++ {
-			switch k := r.Intn(20); {
+			k := r.Intn(20)
+			if lane == "hostile" && core.Chance(r, 1, 4) {
+				k = 17
+			}
+			switch {
 			case k < 7:
 				add(entry())
 			case k == 7:
@@ -182,6 +186,9 @@ func fmtGen(r *rand.Rand, lane string) *fmtCase {
 				add("##!>" + core.Pick(r, " ", "") + "include-except" + sp() + "inc1" + sp() + core.Pick(r, "exc1", "exc1 exc2") + core.Pick(r, "", "", " -- a b", "  --  s \"\" "))
 			case k == 16:
 				add("##!>" + core.Pick(r, " ", "", "  ") + "define" + sp() + core.Pick(r, "def1", "def-2", "d_3") + sp() + core.Pick(r, "abc", `[a-c]+`, `\d{2}`, "x{{def1}}") + core.Pick(r, "", " "))
+			case k == 19 && depth > 0:
+				// flag, prefix and suffix lines may stand inside a block; they go to column 0
+				add(core.Pick(r, "##!^ "+core.Pick(r, `\b`, "[a-c]"), "##!$ "+core.Pick(r, `\b`, "[^a-z]"), "##!+ s", "##!+  s "))
 			case k == 17 && lane == "hostile":
 				add(core.Pick(r,
 					"##! ##!> include inc1", "##! note ##!> include inc1", "x ##!> include inc2", "##!^ a ##!> include inc1", "##! ##!> assemble",
